@@ -1,7 +1,7 @@
 """C19 — hash primitives give standard digests in every configuration (RIPEMD-160 bundled/native, hash160,
 double_sha256, murmur3, Bloom filter bit positions)."""
 from common import *
-import struct, unittest, io
+import struct, unittest, io, types, enum
 import pycoin.contrib.ripemd160 as R
 import pycoin.bloomfilter as B
 
@@ -263,6 +263,380 @@ def _bits_inputs(rng, tier):
     return out
 
 
+
+# ---- presentations and histories (families: exotic-but-legal input types; state kept on the object / class / module) -
+PRESENTATIONS = ("bytes_subclass", "bytearray", "memoryview")
+
+
+class _IntSub(int):
+    pass
+
+
+class _BytesSub(bytes):
+    pass
+
+
+def present_bytes(d, kind):
+    if kind == "bytearray":
+        return bytearray(d)
+    if kind == "memoryview":
+        return memoryview(d)
+    if kind == "bytes_subclass":
+        return _BytesSub(d)
+    return d
+
+
+def present_int(v, kind):
+    if kind == "sub":
+        return _IntSub(v)
+    if kind == "bool" and v in (0, 1):
+        return bool(v)
+    if kind == "enum":
+        return enum.IntEnum("E", {"V": v}).V
+    return v
+
+
+_B58 = "123456789ABCDEFGHJKLMNPQRSTUVWXYZabcdefghijkmnopqrstuvwxyz"
+
+
+def ref_address(h160, version=0):
+    """Base58Check text of version||hash160 (own encoder)"""
+    raw = bytes([version]) + h160
+    raw += hashlib.sha256(hashlib.sha256(raw).digest()).digest()[:4]
+    n, out = int.from_bytes(raw, "big"), ""
+    while n:
+        n, r = divmod(n, 58)
+        out = _B58[r] + out
+    return "1" * (len(raw) - len(raw.lstrip(b"\0"))) + out
+
+
+MUTATORS = ("A", "H", "S", "B", "T", "K", "P", "R", "ADDR")
+OBSERVERS = ("L", "C")
+
+
+def op_item(op):
+    """the element an add-operation inserts (None for the other operations)"""
+    if op[0] in ("A", "H", "ADDR"):
+        return bytes.fromhex(op[1])
+    if op[0] == "S":
+        return bytes.fromhex(op[1]) + struct.pack("<L", op[2])
+    return None
+
+
+def apply_op(bf, op):
+    """one operation on the real object; returns the observation (None for mutators).  op = [tag, args..., presentation?]"""
+    t = op[0]
+    if t == "A":
+        bf.add_item(present_bytes(bytes.fromhex(op[1]), op[2] if len(op) > 2 else None))
+    elif t == "H":
+        bf.add_hash160(present_bytes(bytes.fromhex(op[1]), op[2] if len(op) > 2 else None))
+    elif t == "ADDR":
+        bf.add_address(ref_address(bytes.fromhex(op[1])))
+    elif t == "S":
+        bf.add_spendable(types.SimpleNamespace(tx_hash=bytes.fromhex(op[1]), tx_out_index=present_int(op[2], op[3] if len(op) > 3 else None)))
+    elif t == "B":
+        bf.set_bit(present_int(op[1], op[2] if len(op) > 2 else None))
+    elif t == "C":
+        return bool(bf.check_bit(present_int(op[1], op[2] if len(op) > 2 else None)))
+    elif t == "L":
+        p = bf.filter_load_params()
+        if not isinstance(p, tuple) or len(p) != 3:
+            raise TypeError("filter_load_params returned %r" % type(p))
+        return (bytes(p[0]), int(p[1]), int(p[2]))     # what a filterload message built now would carry
+    elif t == "T":
+        bf.tweak = present_int(op[1], op[2] if len(op) > 2 else None)
+    elif t == "K":
+        bf.hash_function_count = present_int(op[1], op[2] if len(op) > 2 else None)
+    elif t == "P":
+        bf.filter_bytes[op[1]] = op[2]
+    elif t == "R":
+        bf.filter_bytes = bytearray(bytes.fromhex(op[1]))
+    else:
+        raise ValueError("unknown op %r" % (op,))
+    return None
+
+
+def impl_history(size, k, tweak, ops):
+    bf = B.BloomFilter(size, k, tweak)
+    obs = [apply_op(bf, op) for op in ops]
+    return (bytes(bf.filter_bytes), obs)
+
+
+def ref_history(size, k, tweak, ops):
+    """memory-less BIP37 reading of a history on the triple (vData, nHashFuncs, nTweak); ops inside op_ok only"""
+    v, obs = bytearray(size), []
+    k, tweak = int(k), int(tweak)
+    for op in ops:
+        t, o = op[0], None
+        it = op_item(op)
+        if it is not None:
+            if len(v):
+                for idx in ref_bloom_indices(len(v), k, tweak, it):
+                    v[idx >> 3] |= 1 << (7 & idx)
+        elif t == "B":
+            idx = op[1] % (8 * len(v))
+            v[idx >> 3] |= 1 << (7 & idx)
+        elif t == "C":
+            idx = op[1] % (8 * len(v))
+            o = bool(v[idx >> 3] & (1 << (7 & idx)))
+        elif t == "L":
+            o = (bytes(v), k, tweak)
+        elif t == "T":
+            tweak = int(op[1])
+        elif t == "K":
+            k = int(op[1])
+        elif t == "P":
+            v[op[1]] = op[2]
+        elif t == "R":
+            v = bytearray(bytes.fromhex(op[1]))
+        obs.append(o)
+    return (bytes(v), obs)
+
+
+def op_ok(size, op):
+    t = op[0]
+    if t == "S":
+        return 0 <= op[2] <= M32
+    if t in ("B", "C"):
+        return size > 0
+    if t == "P":
+        return 0 <= op[2] < 256 and -size <= op[1] < size
+    if t == "R":
+        return len(op[1]) == 2 * size
+    return True
+
+
+def history_line(fn, size, k, tweak, ops):
+    toks = []
+    for op in ops:
+        t = op[0]
+        if t in ("A", "H", "R"):
+            toks.append("%s:x%s" % (t, op[1]))
+        elif t == "S":
+            toks.append("S:x%s:%s" % (op[1], arg(op[2])))
+        elif t in ("B", "C", "T", "K"):
+            toks.append("%s:%s" % (t, arg(op[1])))
+        elif t == "P":
+            toks.append("P:%s:%s" % (arg(op[1]), arg(op[2])))
+        elif t == "L":
+            toks.append("L")
+        else:
+            return None            # not in the model's vocabulary (add_address): direct check only
+    return "%s %s %s %s [%s]" % (fn, arg(size), arg(k), arg(tweak), ",".join(toks))
+
+
+def _rand_op(rng, size, weights=None):
+    t = rng.choice(weights or ["A", "A", "A", "H", "S", "L", "L", "L", "C", "B", "T", "K", "P", "R"])
+    if t in ("A", "H"):
+        return [t, _rb(rng, rng.choice([20, 20, 32, 36, rng.randint(0, 50)])).hex()]
+    if t == "S":
+        return ["S", _rb(rng, 32).hex(), rng.choice([0, 1, 3, M32, rng.getrandbits(32)])]
+    if t in ("B", "C"):
+        return [t, rng.choice([rng.randint(0, max(0, 8 * size - 1)), rng.getrandbits(32), -rng.getrandbits(12)])]
+    if t == "T":
+        return ["T", rng.choice([0, 5, rng.getrandbits(32), M32 + 1 + rng.getrandbits(10), -rng.getrandbits(20)])]
+    if t == "K":
+        return ["K", rng.choice([0, 1, 3, 7, rng.randint(0, 20)])]
+    if t == "P":
+        return ["P", rng.randint(-size, size - 1) if size else 0, rng.getrandbits(8)]
+    if t == "R":
+        return ["R", _rb(rng, size).hex()]
+    return [t]
+
+
+MONO = ["A", "A", "A", "H", "S", "L", "L", "L", "C", "B"]
+
+
+def _history_inputs(rng, tier):
+    """(size, k, tweak, ops) over the model's vocabulary: the re-load pattern, every observer x every mutator, random"""
+    out = []
+    its = [bytes([i]) * 20 for i in range(1, 6)]
+    for size, k, tweak in ((8, 5, 7), (64, 7, 0x12345678), (200, 11, M32)) + (((36000, 3, 5),) if tier == "thorough" else ((3000, 3, 5),)):
+        out.append((size, k, tweak, [["A", its[0].hex()], ["L"], ["A", its[1].hex()], ["L"]]))
+        out.append((size, k, tweak, [["L"], ["A", its[0].hex()], ["L"], ["H", its[1].hex()], ["A", its[2].hex()], ["L"],
+                                     ["S", (its[3] + its[4][:12]).hex(), 3], ["L"], ["C", 5], ["L"]]))
+    for obs in OBSERVERS:
+        for mut in ("A", "H", "S", "B", "T", "K", "P", "R"):
+            size = rng.choice([1, 4, 9, 33])
+            o = (lambda: [obs] if obs == "L" else ["C", rng.randint(0, 8 * size - 1)])
+            m1, m2 = _rand_op(rng, size, [mut]), _rand_op(rng, size, [mut])
+            out.append((size, rng.randint(1, 9), rng.getrandbits(32), [["A", its[0].hex()], o(), m1, o(), m2, o(), ["A", its[1].hex()], o(), ["L"]]))
+            out.append((size, rng.randint(1, 9), rng.getrandbits(32), [o(), m1, o(), ["L"]]))
+    for size in (0,):
+        out.append((0, 3, 1, [["L"], ["A", its[0].hex()], ["L"], ["T", 9], ["K", 2], ["L"]]))
+        out.append((0, 3, 1, [["B", 1]]))
+        out.append((0, 3, 1, [["C", 1]]))
+    out.append((4, 2, 0, [["P", 4, 1]]))
+    out.append((4, 2, 0, [["P", -5, 1]]))
+    out.append((4, 2, 0, [["P", 0, 256], ["L"]]))
+    out.append((4, 2, 0, [["P", 9, -1]]))
+    out.append((4, 2, 0, [["S", its[0].hex(), M32 + 1]]))
+    out.append((4, 2, 0, [["S", its[0].hex(), -1]]))
+    out.append((4, 2, 0, [["R", "00" * 7], ["A", its[0].hex()], ["L"]]))      # a longer array: bit_count is stale
+    out.append((4, 2, 0, [["R", "00" * 2], ["L"], ["C", 3], ["B", 31]]))      # a shorter one: IndexError
+    for _ in range(160 if tier == "quick" else 8000):
+        size = rng.choice([1, 2, 3, 8, 20, rng.randint(1, 120), rng.randint(1, 120)])
+        mono = rng.random() < 0.6
+        ops = [_rand_op(rng, size, MONO if mono else None) for _ in range(rng.randint(2, 14))]
+        out.append((size, rng.choice([1, 2, 5, 11, rng.randint(0, 30)]), rng.choice([0, rng.getrandbits(32), rng.getrandbits(40), -rng.getrandbits(8)]), ops))
+    return out
+
+
+def _history_extra(rng, tier):
+    """histories outside the model's vocabulary: add_address, other buffer / int presentations of the same values"""
+    out = []
+    for _ in range(40 if tier == "quick" else 1500):
+        size = rng.choice([3, 8, 50, rng.randint(1, 100)])
+        ops = []
+        for _ in range(rng.randint(2, 9)):
+            c = rng.random()
+            if c < 0.2:
+                ops.append(["ADDR", _rb(rng, 20).hex()])
+            elif c < 0.45:
+                ops.append([rng.choice(["A", "H"]), _rb(rng, rng.choice([20, 32, 36])).hex(), rng.choice(PRESENTATIONS)])
+            elif c < 0.55:
+                ops.append(["S", _rb(rng, 32).hex(), rng.choice([0, 1, rng.getrandbits(32)]), rng.choice(["sub", "bool", "enum"])])
+            elif c < 0.65:
+                if rng.random() < 0.5:
+                    ops.append(["T", rng.choice([0, 1, 7, rng.getrandbits(32)]), rng.choice(["sub", "bool", "enum"])])
+                else:
+                    ops.append(["K", rng.choice([0, 1, 7, rng.randint(0, 25)]), rng.choice(["sub", "bool", "enum"])])   # k iterations: keep small
+            elif c < 0.75:
+                ops.append([rng.choice(["B", "C"]), rng.randint(0, 8 * size - 1), rng.choice(["sub", "enum"])])
+            else:
+                ops.append(["L"])
+        ops.append(["L"])
+        out.append((size, present_int(rng.randint(1, 12), rng.choice([None, "sub", "enum"])), present_int(rng.getrandbits(32), rng.choice([None, "sub", "enum"])), ops))
+    return out
+
+
+def chk_history(size, k, tweak, ops):
+    """the real object through a history against the memory-less reference, a fresh object, and the peer's test"""
+    ops = [list(o) for o in ops]
+    if not all(op_ok(size, o) for o in ops):
+        return None
+    try:
+        got = impl_history(size, k, tweak, ops)
+    except Exception as e:
+        return {"kind": "history-raises", "detail": "%s: %s" % (type(e).__name__, e)}
+    want = ref_history(size, k, tweak, ops)
+    for n, (g, w) in enumerate(zip(got[1], want[1])):
+        if g != w:
+            if ops[n][0] == "L":
+                return {"kind": "filterload-not-current-state", "op_index": n, "loads_before": sum(1 for o in ops[:n] if o[0] == "L"),
+                        "got": (g[0].hex()[:120], g[1], g[2]), "want": (w[0].hex()[:120], w[1], w[2])}
+            return {"kind": "observation-differs", "op_index": n, "op": ops[n][0], "got": repr(g)[:100], "want": repr(w)[:100]}
+    if got[0] != want[0]:
+        return {"kind": "history-filter-bytes-not-bip37", "got": got[0].hex()[:200], "want": want[0].hex()[:200]}
+    # every filterload matches every element added before it (histories without attribute assignments)
+    if size > 0 and all(o[0] in ("A", "H", "S", "ADDR", "B", "C", "L") for o in ops):
+        added = []
+        for n, o in enumerate(ops):
+            it = op_item(o)
+            if it is not None:
+                added.append(it)
+            if o[0] == "L":
+                fb, kk, tt = got[1][n]
+                for it in added:
+                    if not ref_contains(fb, kk, tt, it):
+                        return {"kind": "filterload-does-not-match-added-element", "op_index": n, "item": it.hex()}
+    # independent reference 2: a fresh object given only the mutators
+    try:
+        fresh = B.BloomFilter(size, k, tweak)
+        for o in ops:
+            if o[0] not in OBSERVERS:
+                apply_op(fresh, o)
+        fl = apply_op(fresh, ["L"])
+        if bytes(fresh.filter_bytes) != got[0]:
+            return {"kind": "observers-changed-the-filter", "got": got[0].hex()[:200], "fresh": bytes(fresh.filter_bytes).hex()[:200]}
+        if ops and ops[-1][0] == "L" and got[1][-1] != fl:
+            return {"kind": "filterload-differs-from-fresh-object", "got": got[1][-1][0].hex()[:120], "fresh": fl[0].hex()[:120]}
+    except Exception as e:
+        return {"kind": "fresh-object-raises", "detail": "%s: %s" % (type(e).__name__, e)}
+    return None
+
+
+def chk_two_filters(pa, pb, items, order):
+    """two live filters with different parameters fed the same elements in an interleaved order (class/module-level
+    state would leak from one to the other); order = string of 'a'/'b'/'A'/'B' (capital: filter_load_params)"""
+    try:
+        fa, fb = B.BloomFilter(*pa), B.BloomFilter(*pb)
+        ia, ib, loads = 0, 0, []
+        for c in order:
+            if c == "a" and ia < len(items):
+                fa.add_item(items[ia])
+                ia += 1
+            elif c == "b" and ib < len(items):
+                fb.add_item(items[ib])
+                ib += 1
+            elif c in "AB":
+                f, p, n = (fa, pa, ia) if c == "A" else (fb, pb, ib)
+                lp = f.filter_load_params()
+                if (bytes(lp[0]), int(lp[1]), int(lp[2])) != (bytes(ref_bloom(p[0], p[1], p[2], items[:n])), p[1], p[2]):
+                    return {"kind": "two-filters-filterload", "which": c, "after": n}
+        for f, p, n in ((fa, pa, ia), (fb, pb, ib)):
+            if bytes(f.filter_bytes) != bytes(ref_bloom(p[0], p[1], p[2], items[:n])):
+                return {"kind": "two-filters-bits-not-bip37", "params": list(p), "after": n}
+    except Exception as e:
+        return {"kind": "two-filters-raises", "detail": "%s: %s" % (type(e).__name__, e)}
+    return None
+
+
+def chk_murmur_sequence(calls):
+    """the same function called repeatedly (same data under other seeds, seeds equal under hash(): -1/-2, s/s+2^61-1,
+    True/1, int subclasses): each answer must be the reference's, whatever was asked before"""
+    for n, (dhex, s, dk, sk) in enumerate(calls):
+        d = bytes.fromhex(dhex)
+        try:
+            got = B.murmur3(present_bytes(d, dk), seed=present_int(s, sk))
+        except Exception as e:
+            return {"kind": "murmur3-raises", "call": n, "detail": "%s: %s" % (type(e).__name__, e)}
+        if got != ref_murmur3(d, s):
+            return {"kind": "murmur3-depends-on-history-or-presentation", "call": n, "got": got, "want": ref_murmur3(d, s)}
+    return None
+
+
+def chk_bundled_presentation(mhex, kind):
+    m = bytes.fromhex(mhex)
+    try:
+        got = R.ripemd160(present_bytes(m, kind))
+    except Exception as e:
+        return {"kind": "bundled-ripemd160-raises", "presentation": kind, "exc": type(e).__name__, "detail": str(e)[:100]}
+    if bytes(got) != ref_ripemd160(m):
+        return {"kind": "bundled-ripemd160-not-standard", "presentation": kind, "len": len(m)}
+    return None
+
+
+P61 = (1 << 61) - 1
+
+
+def _sequence_inputs(rng, tier):
+    out = []
+    for _ in range(30 if tier == "quick" else 2000):
+        d = _rb(rng, rng.choice([0, 1, 3, 4, 20, 32, rng.randint(0, 60)])).hex()
+        d2 = _rb(rng, len(d) // 2).hex()
+        s = rng.choice([0, 1, rng.getrandbits(32), rng.getrandbits(64)])
+        out.append([(d, -1, None, None), (d, -2, None, None), (d, -1, None, None)])
+        out.append([(d, s, None, None), (d, s + P61, None, None), (d, s, None, None), (d2, s, None, None), (d, s + 1, None, None)])
+        out.append([(d, 1, None, None), (d, 1, None, "bool"), (d, 0, None, "bool"), (d, s, None, "sub"), (d, s, None, "enum")])
+        out.append([(d, s, k, None) for k in (None,) + PRESENTATIONS] + [(d, s + 1, "bytearray", None), (d, s, None, None)])
+    return out
+
+
+def _two_filter_inputs(rng, tier):
+    out = []
+    for _ in range(25 if tier == "quick" else 1500):
+        pa = (rng.randint(1, 60), rng.randint(1, 12), rng.getrandbits(32))
+        pb = rng.choice([(pa[0], pa[1], pa[2] + 1), (pa[0] + 1, pa[1], pa[2]), (pa[0], pa[1] + 1, pa[2]),
+                         (rng.randint(1, 60), rng.randint(1, 12), rng.getrandbits(32))])
+        items = [_rb(rng, 20) for _ in range(rng.randint(1, 4))]
+        order = "".join(rng.choice("aabbAB") for _ in range(3 * len(items) + 2)) + "aaaabbbbAB"
+        out.append((pa, pb, items, order))
+        out.append((pa, pb, items, "a" * len(items) + "A" + "b" * len(items) + "B"))
+        out.append((pa, pb, items, "b" * len(items) + "B" + "a" * len(items) + "A"))
+    return out
+
+
 # ---- implementation thunks ------------------------------------------------------------------------------------
 def impl_bloom(size, k, tweak, items):
     bf = B.BloomFilter(size, k, tweak)
@@ -302,6 +676,10 @@ def _cfg_dataset(rng, tier):
             sm = _short_messages(rng)
             q += [("ripemd160", m) for m in sm]
             q += [("hash160", m) for m in sm[:6]] + [("double_sha256", m) for m in sm[:3]]
+        # presentations of the same byte string (bytes subclass / bytearray / memoryview)
+        pm = [msgs[0], msgs[3], msgs[56], msgs[64], msgs[130]]
+        for kind in PRESENTATIONS:
+            q += [("%s@%s" % (fn, kind), m) for fn in ("ripemd160", "hash160", "double_sha256") for m in pm]
         out = run_worker(cfg, q)
         res[cfg] = [(fn, d, r) for (fn, d), r in zip(q, out)]
     _DATASET[key] = (msgs, res)
@@ -318,6 +696,9 @@ def model_cases(rng, tier):
     # B. pycoin.encoding.hash in every configuration (worker processes) against selection + oracle/model
     for cfg, rows in cfgres.items():
         for fn, d, r in rows:
+            fn, _, kind = fn.partition("@")
+            if kind == "memoryview":
+                continue          # direct check only (known finding bundled-ripemd160-memoryview)
             if fn == "choice":
                 yield Case("choice " + cfg_args(cfg), (lambda r=r: r), meta=cfg_name(cfg))
             elif fn == "ripemd160":
@@ -357,6 +738,15 @@ def model_cases(rng, tier):
     for size, vs, cs in _bits_inputs(rng, tier):
         yield Case("bloom_bits %s %s %s" % (arg(size), arg(vs), arg(cs)),
                    (lambda size=size, vs=vs, cs=cs: call19(impl_bloom_bits, size, vs, cs)))
+    # G. histories of one BloomFilter object: mutators and observers interleaved (model and memory-less specification)
+    for size, k, tweak, ops in _history_inputs(rng, tier):
+        line = history_line("bloom_history", size, k, tweak, ops)
+        if line is None:
+            continue
+        yield Case(line, (lambda size=size, k=k, tweak=tweak, ops=ops: call19(impl_history, size, k, tweak, ops)))
+        if 0 < size <= 400 and all(op_ok(size, o) for o in ops):
+            yield Case(history_line("spec_history", size, k, tweak, ops),
+                       (lambda size=size, k=k, tweak=tweak, ops=ops: call19(impl_history, size, k, tweak, ops)))
 
 
 # ---- direct property checks (implementation against independent references; no Coq involved) ------------------
@@ -371,7 +761,7 @@ def chk_pure(m):
 
 
 def chk_cfg_row(cfg, fn, d, r):
-    want = {"ripemd160": ref_ripemd160, "hash160": ref_hash160, "double_sha256": ref_dsha}[fn](d)
+    want = {"ripemd160": ref_ripemd160, "hash160": ref_hash160, "double_sha256": ref_dsha}[fn.partition("@")[0]](d)
     if r != "x" + want.hex():
         return {"kind": "%s-not-standard" % fn, "config": cfg_name(cfg), "len": len(d), "got": r, "want": want.hex()}
     return None
@@ -454,6 +844,18 @@ def prop_cases(rng, tier):
             continue
         yield PropCase("bloom_bip37", {"size": size, "k": k, "tweak": tweak, "items": [i.hex() for i in items]},
                        (lambda size=size, k=k, tweak=tweak, items=items: chk_bloom(size, k, tweak, items)))
+    for size, k, tweak, ops in _history_inputs(rng, tier) + _history_extra(rng, tier):
+        yield PropCase("bloom_history", {"size": size, "k": int(k), "tweak": int(tweak), "ops": ops},
+                       (lambda size=size, k=k, tweak=tweak, ops=ops: chk_history(size, k, tweak, ops)))
+    for pa, pb, items, order in _two_filter_inputs(rng, tier):
+        yield PropCase("two_filters", {"a": list(pa), "b": list(pb), "items": [i.hex() for i in items], "order": order},
+                       (lambda pa=pa, pb=pb, items=items, order=order: chk_two_filters(pa, pb, items, order)))
+    for calls in _sequence_inputs(rng, tier):
+        yield PropCase("murmur3_sequence", {"calls": [list(c) for c in calls]}, (lambda calls=calls: chk_murmur_sequence(calls)))
+    for n in (0, 1, 55, 56, 64, 65, 130):
+        for kind in PRESENTATIONS:
+            m = _rb(rng, n)
+            yield PropCase("bundled_presentation", {"m": m.hex(), "kind": kind}, (lambda m=m, kind=kind: chk_bundled_presentation(m.hex(), kind)))
 
 
 def replay_input(check, inp):
@@ -471,14 +873,30 @@ def replay_input(check, inp):
         return chk_murmur(bytes.fromhex(inp["d"]), int(inp["seed"]))
     if check == "bloom_bip37":
         return chk_bloom(inp["size"], inp["k"], inp["tweak"], [bytes.fromhex(i) for i in inp["items"]])
+    if check == "bloom_history":
+        return chk_history(inp["size"], inp["k"], inp["tweak"], inp["ops"])
+    if check == "two_filters":
+        return chk_two_filters(tuple(inp["a"]), tuple(inp["b"]), [bytes.fromhex(i) for i in inp["items"]], inp["order"])
+    if check == "murmur3_sequence":
+        return chk_murmur_sequence([tuple(c) for c in inp["calls"]])
+    if check == "bundled_presentation":
+        return chk_bundled_presentation(inp["m"], inp["kind"])
     return {"kind": "unknown-check"}
 
 
 def classify(pc, r):
+    # the bundled implementation concatenates `data[...] + pad`: a memoryview raises TypeError (hashlib accepts it)
+    if pc.name == "bundled_presentation" and pc.inp.get("kind") == "memoryview" and r.get("kind") == "bundled-ripemd160-raises" \
+            and r.get("exc") == "TypeError":
+        return "bundled-ripemd160-memoryview"
+    if pc.name == "config_digest" and pc.inp.get("fn") == "ripemd160@memoryview" and r.get("got") == "!E_TYPE":
+        return "bundled-ripemd160-memoryview"
     return None
 
 
-KNOWN_REPLAYS = {}
+KNOWN_REPLAYS = {
+    "bundled-ripemd160-memoryview": lambda: chk_bundled_presentation("616263", "memoryview"),
+}
 
 
 def _parse(tok):
@@ -526,6 +944,25 @@ def search(rng, tier, disagreements, known_ids):
                 if size <= 36001:
                     cands.append(PropCase("bloom_bip37", {"size": size, "k": k, "tweak": tweak, "items": [i.hex() for i in items]},
                                           (lambda size=size, k=k, tweak=tweak, items=items: chk_bloom(size, k, tweak, items))))
+            elif fn in ("bloom_history", "spec_history"):
+                size, k, tweak = _parse(toks[1]), _parse(toks[2]), _parse(toks[3])
+                ops = []
+                for t in toks[4][1:-1].split(","):
+                    if not t:
+                        continue
+                    f = t.split(":")
+                    ops.append([f[0]] + [(x[1:] if x.startswith("x") else _parse(x)) for x in f[1:]])
+                variants = [ops, [o for o in ops if o[0] not in ("T", "K", "P", "R")]]
+                inter = []
+                for o in variants[1]:
+                    inter += [o, ["L"]]
+                variants += [inter, [["L"]] + inter]
+                for n in range(1, len(ops)):
+                    variants.append(ops[:n] + [["L"]])
+                for vv in variants:
+                    if 0 <= size <= 36000:
+                        cands.append(PropCase("bloom_history", {"size": size, "k": k, "tweak": tweak, "ops": vv},
+                                              (lambda size=size, k=k, tweak=tweak, vv=vv: chk_history(size, k, tweak, vv))))
             elif fn == "bloom_bits":
                 size, vs = _parse(toks[1]), _parse(toks[2])
                 if 0 < size <= 5000:
